@@ -23,7 +23,7 @@
    command is TaskCmd.v's (property C02).
    Concurrency is a schedule: a list of [action]s; every theorem of props/C03.v quantifies over all
    of them.  Definitions only; lemmas live in proofs/Watcher_proofs.v. *)
-From Verif Require Import Common RoleTree TaskCmd Gen_LeafHandover.
+From Verif Require Import Common RoleTree TaskCmd Gen_LeafHandover Gen_FailureLabel.
 Open Scope N_scope.
 
 Definition path := list nat.
@@ -274,6 +274,24 @@ Inductive fault :=
 | FDead (vs : list nat)     (* terminal Mesos status of an owned task ([v]), executor lost ([v]),
                                agent lost (every task on it): state ERROR and status INACTIVE each *)
 | FInternal (v : nat).      (* DeviceEvent TASK_INTERNAL_ERROR from task v: role state ERROR *)
+
+(* How the report of a failure is labelled and routed: Mesos state (1 TASK_FAILED 2 TASK_LOST
+   3 TASK_KILLED 7 TASK_ERROR), reason code, source, route (0 plain update, 1 answer to the implicit
+   reconciliation after a new subscription), optional fields missing.  handleMessage decides on the
+   state and on the task being owned and locked only: the case list and what the guard looks at are
+   read from the source on every run (translator failurelabel, Gen_FailureLabel.v). *)
+Record flabel := mkFL { fl_state : N; fl_reason : N; fl_source : N; fl_route : N; fl_bare : bool }.
+
+Definition report_fault (l : flabel) (owned_locked : bool) (v : nat) : fault :=
+  if memN (fl_state l) error_case_states && owned_locked then FDead [v] else FDead [].
+
+(* the guard of `go m.updateTaskState(id, "ERROR")` mentions nothing of the status (no reason, no
+   source), nothing else branches around it, the status case has no early exit before it, and the
+   case list is the four terminal failure states *)
+Definition failure_label_irrelevant : bool :=
+  list_eqb N.eqb error_case_states [1; 2; 3; 7] &&
+  N.leb 1 error_guard_ifs && N.eqb error_guard_foreign_idents 0 &&
+  N.eqb error_other_branching 0 && N.eqb error_early_exits 0.
 
 Definition fault_victims (f : fault) : list nat :=
   match f with FDead vs => vs | FInternal v => [v] end.
@@ -536,8 +554,12 @@ Fixpoint run_script (ops : list sop) (s : wsys) : list wobs :=
 
 (* input of a case: the workflow, the task roles, an optional fault injected inside an
    after_CONFIGURE hook of the creation (before subscribeToWfState), the script; [i_kinds]: how the
-   harness produced each fault (not used by the model):
-   1 TASK_FAILED 2 TASK_LOST 3 TASK_KILLED 4 executor lost 5 agent lost 6 TASK_INTERNAL_ERROR *)
+   harness produced each fault (not used by the model: the label must not matter):
+   1 TASK_FAILED 2 TASK_LOST 3 TASK_KILLED 4 executor lost 5 agent lost 6 TASK_INTERNAL_ERROR
+   7 TASK_ERROR, + 10 * reason (1 none 2 RECONCILIATION 3 AGENT_REMOVED 4 EXECUTOR_TERMINATED
+   5 CONTAINER_LIMITATION_MEMORY 6 GC_ERROR; 0 the executor's own) + 100 * source (1 master 2 agent
+   3 none; 0 executor) + 1000 reconciliation answer after a reconnection + 2000 optional fields
+   missing + 4000 no UUID *)
 Record c03_input := mkIn3 {
   i_tree : rtree; i_paths : list path; i_early : option fault; i_ops : list sop; i_kinds : list N }.
 
